@@ -11,39 +11,48 @@ SCALARS = [2.0]
 WINDOWS = [0, 1, 2, 3]
 
 
+def grid_of(spec):
+    return H.reg(spec[1]) if spec[0] == "reg" else H.near(spec[1])
+
+
 def plan(tier):
     if tier == "quick":
-        specs = [(3, None, 3), (4, None, 2), (5, 3, 2), (6, 2, 1)]
-        Ls = [1, 2, 3, 4, 5, 6]
+        specs = [(("reg", 3), None, 3), (("reg", 4), None, 2), (("reg", 5), 3, 2),
+                 (("reg", 6), 2, 1), (("near", 3), 3, 2)]
+        Ls = [("reg", L) for L in (1, 2, 3, 4, 5, 6)] + [("near", 3)]
     else:
-        specs = [(3, None, 3), (4, None, 3), (5, None, 2), (6, 3, 2), (7, 2, 1)]
-        Ls = [1, 2, 3, 4, 5, 6, 7]
+        specs = [(("reg", 3), None, 3), (("reg", 4), None, 3), (("reg", 5), None, 2),
+                 (("reg", 6), 3, 2), (("reg", 7), 2, 1), (("near", 3), None, 2),
+                 (("near", 4), 3, 2)]
+        Ls = [("reg", L) for L in (1, 2, 3, 4, 5, 6, 7)] + [("near", 3), ("near", 4)]
     tasks, desc = [], []
-    for L, maxev, depth in specs:
-        n = len(H.disc_menu(L, max_events=maxev))
+    for spec, maxev, depth in specs:
+        n = len(H.disc_menu(grid_of(spec), max_events=maxev))
         nsh = max(1, min(32, n // 2))
         for be in ("py", "pyx"):
             for s in range(nsh):
-                tasks.append({"mode": "history", "backend": be, "L": L, "maxev": maxev,
+                tasks.append({"mode": "history", "backend": be, "grid": list(spec), "maxev": maxev,
                               "depth": depth, "shard": s, "nshards": nsh})
-        desc.append({"mode": "history", "support_cells": L, "operand_menu": n,
+        desc.append({"mode": "history", "grid": list(spec), "operand_menu": n,
                      "max_events_per_operand": maxev, "history_depth": depth})
-    for L in Ls:
-        n = len(H.disc_menu(L))
+    for spec in Ls:
+        n = len(H.disc_menu(grid_of(spec)))
         nsh = max(1, min(16, n // 4))
         for s in range(nsh):
-            tasks.append({"mode": "integral", "backend": "py", "L": L, "shard": s, "nshards": nsh})
-        desc.append({"mode": "integral/avrg/plottable", "support_cells": L, "functions": n,
-                     "intervals": "all a<b on the half-lattice, all ordered pairs of them (L<=3)",
+            tasks.append({"mode": "integral", "backend": "py", "grid": list(spec), "shard": s,
+                          "nshards": nsh})
+        desc.append({"mode": "integral/avrg/plottable", "grid": list(spec), "functions": n,
+                     "intervals": "all a<b on the half-grid, all ordered pairs of them (<=3 cells)",
                      "averaging_window_size": WINDOWS})
     return {
         "tasks": tasks,
         "bounds": {"explorations": desc, "backends": ["py", "pyx-model (cython_add)"]},
         "rule": "history mode: breadth-first search over add(g)/mul_scalar/copy histories on live "
                 "DiscreteFunc objects from every profile of the operand menu (all event subsets of "
-                "the lattice points incl. both edge points x two value/multiplicity patterns), "
-                "deduplicated by exact model state; integral mode: every profile x every "
-                "half-lattice interval / pair of intervals x smoothing windows 0..3",
+                "the grid points incl. both edge points x two value/multiplicity patterns; 'near' "
+                "grids add event times 2^-30 next to lattice points), deduplicated by exact model "
+                "state; integral mode: every profile x every half-grid interval / pair of "
+                "intervals x smoothing windows 0..3",
         "exhaustive": True,
         "assumptions": ["event times on the lattice, interval ends on the half-lattice",
                         "edge entries carry copies of the first/last event as the library builds "
@@ -107,16 +116,18 @@ def smooth_model(y, mp, k):
     return out
 
 
-def check_function(r, L, name, args, model, be="py"):
+def check_function(r, spec, name, args, model, be="py"):
     f = H.build("disc", args)
     snap = H.snapshot("disc", f)
-    case0 = {"L": L, "function": name, "args": args}
+    G = grid_of(spec)
+    L = len(G) - 1
+    case0 = {"grid": list(spec), "function": name, "args": args}
 
     def viol(sub, extra, exp, obs, msg):
         r.violation(ID, sub, be, "%s/disc" % sub, dict(case0, **extra), exp, obs, msg,
                     (L, len(name)))
 
-    pts = [T0 + j * U / 2 for j in range(2 * L + 1)]
+    pts = [H.fpos(G, j) for j in range(2 * L + 1)]
     n2 = 2 * L
     ivs = [(a2, b2) for a2 in range(n2 + 1) for b2 in range(a2 + 1, n2 + 1)]
     for a2, b2 in ivs:
@@ -199,28 +210,33 @@ def check_function(r, L, name, args, model, be="py"):
 
 def run_task(task):
     r = Result()
-    L = task["L"]
+    spec = tuple(task["grid"])
+    G = grid_of(spec)
     be = task["backend"]
     if task["mode"] == "integral":
-        for i, (name, args, model) in enumerate(H.disc_menu(L)):
+        for i, (name, args, model) in enumerate(H.disc_menu(G)):
             if i % task["nshards"] != task["shard"]:
                 continue
             r.states += 1
             r.transitions += 1
             r.traces += 1
             r.sigs.add(hash(model.key()) & 0xffffffffffff)
-            check_function(r, L, name, args, model)
+            check_function(r, spec, name, args, model)
             if i % 11 == 0:
                 r.sample({"function": name, "x": args[0], "y": args[1], "mp": args[2]})
         return r
-    menu = H.disc_menu(L, max_events=task["maxev"])
+    menu = H.disc_menu(G, max_events=task["maxev"])
     names = [n for n, _, _ in menu]
     inits = [n for i, n in enumerate(names) if i % task["nshards"] == task["shard"]]
 
     def viol(sub, hist, exp, obs, msg):
-        r.violation(ID, sub, be, "%s/disc/%s" % (sub, be),
-                    {"L": L, "maxev": task["maxev"], "history": hist}, exp, obs, msg,
-                    (len(hist), len(str(hist))))
+        case = {"grid": list(spec), "maxev": task["maxev"]}
+        if isinstance(hist, dict):
+            case.update(hist)
+        else:
+            case["history"] = hist
+        r.violation(ID, sub, be, "%s/disc/%s/%s" % (sub, spec[0], be), case, exp, obs, msg,
+                    (len(str(hist)),))
 
     def on_state(obj, model, hist):
         r.evaluations += 1
@@ -240,24 +256,24 @@ def replay(rec):
     r = Result()
     c = rec["case"]
     be = rec["backend"]
+    spec = tuple(c["grid"])
+    G = grid_of(spec)
     if "function" in c:
-        for name, args, model in H.disc_menu(c["L"]):
+        for name, args, model in H.disc_menu(G):
             if name == c["function"]:
-                check_function(r, c["L"], name, args, model)
+                check_function(r, spec, name, args, model)
         return r
-    menu = H.disc_menu(c["L"], max_events=c.get("maxev"))
+    menu = H.disc_menu(G, max_events=c.get("maxev"))
+    names = [n for n, _, _ in menu]
     by_name = {n: (a, m) for n, a, m in menu}
-    hist = [tuple(h) if isinstance(h, list) else h for h in c["history"]]
-    try:
-        for i in range(1, len(hist) + 1):
-            if hist[i - 1] == ("copy", None) or (i > 1 and hist[i - 1][0] == "copy"):
-                pass
-            obj, model = H.replay_history("disc", by_name, hist[:i])
-            bad = state_check(obj, model)
-            if bad:
-                r.violation(ID, bad[0], be, rec["signature"], c, bad[1], bad[2], bad[3])
-                return r
-    except Exception as e:
-        r.violation(ID, "exception", be, rec["signature"], c, "succeeds",
-                    "%s: %s" % (type(e).__name__, e), "operation raised")
+    found = H.replay_checks("disc", menu, c["history"], names[0], state_check)
+    if "other_history" in c:
+        found += H.replay_checks("disc", menu, c["other_history"], names[0], state_check)
+        o1, _ = H.replay_history("disc", by_name, H.norm_hist(c["history"]))
+        o2, _ = H.replay_history("disc", by_name, H.norm_hist(c["other_history"]))
+        if not H._canon_close(H.canon("disc", o1), H.canon("disc", o2), "disc"):
+            found.append(("order_dependence", H.canon("disc", o2), H.canon("disc", o1),
+                          "two histories denoting the same profile produced different objects"))
+    for sub, exp, obs, msg in found:
+        r.violation(ID, sub, be, rec["signature"], c, exp, obs, msg)
     return r
